@@ -64,9 +64,12 @@ impl Hasher for Fnv {
 }
 
 /// Per-worker statistics (merged at the end; no cross-thread contention while running).
+pub const NONTRIVIAL_CAP_PER_WORKER: usize = 2_000_000;
+
 #[derive(Default)]
 pub struct Local {
     pub evals: u64,
+    pub nontrivial_evals: u64,
     pub counters: BTreeMap<String, u64>,
     pub nontrivial: BTreeSet<u64>,
     pub samples: Vec<Value>,
@@ -85,10 +88,15 @@ impl Local {
         }
         *self.counters.entry(k.to_string()).or_insert(0) += n;
     }
-    /// register a distinct non-trivial case by its hash
+    /// register a distinct non-trivial case by its hash.  The set is capped per worker (memory); beyond the cap only
+    /// the number of non-trivial evaluations keeps growing (`nontrivial_evaluations` in the evidence), so the reported
+    /// distinct count is a lower bound.
     pub fn nontrivial(&mut self, h: u64) {
         if !self.frozen {
-            self.nontrivial.insert(h);
+            self.nontrivial_evals += 1;
+            if self.nontrivial.len() < NONTRIVIAL_CAP_PER_WORKER {
+                self.nontrivial.insert(h);
+            }
         }
     }
     pub fn sample(&mut self, f: impl FnOnce() -> Value) {
@@ -117,6 +125,7 @@ pub struct Failure {
 pub struct SubResult {
     pub name: String,
     pub evaluations: u64,
+    pub nontrivial_evaluations: u64,
     pub counters: BTreeMap<String, u64>,
     pub nontrivial: BTreeSet<u64>,
     pub samples: Vec<Value>,
@@ -221,6 +230,7 @@ where
     let mut out = SubResult {
         name: name.to_string(),
         evaluations: 0,
+        nontrivial_evaluations: 0,
         counters: BTreeMap::new(),
         nontrivial: BTreeSet::new(),
         samples: vec![],
@@ -231,6 +241,7 @@ where
     };
     for (l, f) in results {
         out.evaluations += l.evals;
+        out.nontrivial_evaluations += l.nontrivial_evals;
         for (k, v) in l.counters {
             *out.counters.entry(k).or_insert(0) += v;
         }
@@ -299,6 +310,7 @@ where
     let mut out = SubResult {
         name: name.to_string(),
         evaluations: 0,
+        nontrivial_evaluations: 0,
         counters: BTreeMap::new(),
         nontrivial: BTreeSet::new(),
         samples: vec![],
@@ -310,6 +322,7 @@ where
     let mut best: Option<(u64, Value, String)> = None;
     for (l, f) in results {
         out.evaluations += l.evals;
+        out.nontrivial_evaluations += l.nontrivial_evals;
         for (k, v) in l.counters {
             *out.counters.entry(k).or_insert(0) += v;
         }
@@ -400,7 +413,8 @@ pub fn evidence_json(ctx: &Ctx, def: &CheckDef, results: &[SubResult], known_lin
         classes.insert(r.name.clone(), Value::Object(m));
         per_sub.insert(
             r.name.clone(),
-            json!({"evaluations": r.evaluations, "distinct_nontrivial": r.nontrivial.len(), "exhaustive": r.exhaustive,
+            json!({"evaluations": r.evaluations, "distinct_nontrivial": r.nontrivial.len(), "nontrivial_evaluations": r.nontrivial_evaluations,
+                   "distinct_set_capped": r.nontrivial.len() as u64 >= NONTRIVIAL_CAP_PER_WORKER as u64, "exhaustive": r.exhaustive,
                    "wall_s": (r.wall_s * 1000.0).round() / 1000.0, "known_finding_hits": r.known}),
         );
     }
